@@ -14,7 +14,8 @@ vector), its bytes are kept, and a state is materialised by placing such files f
 directory.  That includes the states the API cannot reach by itself but an operator can (share
 migration): share 0 created under W1 next to share 1 created under W2 - the statement names them.
 In thorough every applied request's resulting state is checked to lie inside the enumerated set
-(closure check), so "every state reachable by the alphabet from these roots" is literally covered.
+(closure check, up to renaming the single enabler of a slot that was created from nothing with the
+"garbage" enabler), so "every state reachable by the alphabet from these roots" is literally covered.
 
 Requests: EVERY element of
     named shares S subset of {0,1,2}  x  per named share ( test vector in {none, pass, fail}
@@ -287,6 +288,11 @@ def chunk_fn(chunk, seed, full):
                             res.violation(sig, {"state": state, "named": list(named), "combo": [list(c) for c in combo], "enabler": en, "readv": rv, "seed": seed, "full": full}, msg)
                         if not bad and allstates is not None and label.startswith("applied"):
                             got = observed_state(sd.snap())
+                            used = set(x[0] for x in got if x is not None)
+                            if "G" in used and len(used) == 1:
+                                # a slot created from nothing under the garbage enabler: the same state up to
+                                # the NAME of its single enabler (enablers are only ever compared for equality)
+                                got = tuple(None if x is None else ("W1", x[1]) for x in got)
                             if got not in allstates:
                                 res.violation("harness:state-outside-closure", {"state": state}, "applied request led to %s which is not among the enumerated states" % show_state(got))
                             res.count("closure_checks")
